@@ -77,7 +77,9 @@ def getinfo1_cases():
 
 
 CONF_NAMES = [("SocksPort", "SOCKSPORT"), ("ContactInfo", "contactinfo"), ("Log", "Log"),
-              ("HiddenServiceStatistics", "HiddenServiceStatistics"), ("MyFamily", "myfamily")]
+              ("HiddenServiceStatistics", "HiddenServiceStatistics"), ("MyFamily", "myfamily"),
+              # Tor answers under its canonical name also when asked by a unique abbreviation or a legacy alias
+              ("Nickname", "Nick"), ("ServerDNSResolvConfFile", "ResolvConf"), ("ORPort", "ORP")]
 
 
 def getconf_cases():
@@ -292,7 +294,8 @@ def drive_getconf(case):
     if case["api"] == "get_conf":
         # one entry for the one option asked for; under which spelling of the name (Tor's or the caller's) it is
         # filed is not fixed by the statement
-        if not isinstance(got, dict) or len(got) != 1 or str(list(got.keys())[0]).lower() != name.lower():
+        if not isinstance(got, dict) or len(got) != 1 or str(list(got.keys())[0]).lower() not in (
+                name.lower(), asked.lower()):
             res.bad("getconf-keys", "case %r result %r" % (case, got))
             return res
         got = list(got.values())[0]
